@@ -61,6 +61,7 @@ type kase struct {
 	lines     []string
 	snap      log_buffer.VerifSnap
 	diskCount int
+	corrupt   bool       // a flush handed over bytes that do not parse
 	dw        *diskWorld // disk cases: the real Filer this case runs on (disk.go)
 }
 
@@ -189,7 +190,13 @@ func (c *kase) exec(op []string) []string {
 		c.started++
 		c.inflight = &req
 		c.disk = append(c.disk, req.data...)
-		return []string{"w", hx.I(req.start.UnixNano()), hx.I(req.stop.UnixNano()), tsList(parseEntries(req.data))}
+		ents := parseEntries(req.data)
+		for _, e := range ents {
+			if e == "trunc" || e == "bad" {
+				c.corrupt = true // the flushed bytes are not a sequence of entries: reported here (DIFF), not re-read later
+			}
+		}
+		return []string{"w", hx.I(req.start.UnixNano()), hx.I(req.stop.UnixNano()), tsList(ents)}
 	case "fack":
 		if c.inflight == nil {
 			return []string{"noop"}
@@ -241,6 +248,9 @@ func (c *kase) exec(op []string) []string {
 			return nil
 		}
 		if s.disk {
+			if c.corrupt {
+				return []string{"disk", "corrupt"}
+			}
 			processed, _ := filer.ReadEachLogEntry(bytes.NewReader(c.disk), make([]byte, 4), time.Unix(0, s.T).UnixNano(), each)
 			if processed != 0 {
 				s.T = processed
@@ -252,19 +262,65 @@ func (c *kase) exec(op []string) []string {
 			}
 			return []string{"disk", tsList(got), hx.I(s.T), phase(s), hx.B(s.lastResume)}
 		}
-		last, err := c.lb.LoopProcessLogData("c22:"+op[1], time.Unix(0, s.T), func() bool { return false }, each)
-		s.T = last.UnixNano()
-		s.lastResume = err == log_buffer.ResumeFromDiskError
-		e := "ok"
-		if s.lastResume {
-			s.disk = true
-			e = "resume"
-		} else if err != nil {
-			e = "err"
+		// optional second argument: number of idle wake-ups (waitForDataFn returns true with nothing new)
+		last, err := c.lb.LoopProcessLogData("c22:"+op[1], time.Unix(0, s.T), waitN(int(arg(2))), each)
+		return c.memDone(s, last, err, got)
+	case "rnest":
+		// two OVERLAPPING readers: while subscriber a is inside its callback for the first entry of a
+		// batch, subscriber b runs its whole memory phase (deterministic nesting, no goroutines)
+		sa, sb := c.subs[op[1]], c.subs[op[2]]
+		if sa == nil || sb == nil || sa == sb || sa.disk || sb.disk {
+			return []string{"noop"}
 		}
-		return []string{"mem", tsList(got), hx.I(s.T), phase(s), e}
+		k := int(arg(3))
+		var gotA, gotB []string
+		outB := []string{"mem", "-", hx.I(sb.T), phase(sb), "notrun"}
+		ranB := false
+		eachB := func(e *filer_pb.LogEntry) error {
+			if len(gotB) < 5000 {
+				gotB = append(gotB, hx.I(e.TsNs))
+			}
+			return nil
+		}
+		eachA := func(e *filer_pb.LogEntry) error {
+			if len(gotA) < 5000 {
+				gotA = append(gotA, hx.I(e.TsNs))
+			}
+			if !ranB {
+				ranB = true
+				last, err := c.lb.LoopProcessLogData("c22:"+op[2], time.Unix(0, sb.T), waitN(k), eachB)
+				outB = c.memDone(sb, last, err, gotB)
+			}
+			return nil
+		}
+		last, err := c.lb.LoopProcessLogData("c22:"+op[1], time.Unix(0, sa.T), waitN(k), eachA)
+		return append(c.memDone(sa, last, err, gotA), outB...)
 	}
 	return []string{"unknown-op"}
+}
+
+// waitForDataFn that reports "woken up" n times and then gives up (the harness never blocks)
+func waitN(n int) func() bool {
+	return func() bool {
+		if n > 0 {
+			n--
+			return true
+		}
+		return false
+	}
+}
+
+func (c *kase) memDone(s *sub, last time.Time, err error, got []string) []string {
+	s.T = last.UnixNano()
+	s.lastResume = err == log_buffer.ResumeFromDiskError
+	e := "ok"
+	if s.lastResume {
+		s.disk = true
+		e = "resume"
+	} else if err != nil {
+		e = "err"
+	}
+	return []string{"mem", tsList(got), hx.I(s.T), phase(s), e}
 }
 
 func phase(s *sub) string {
@@ -381,8 +437,12 @@ func genCase(seed uint64, thorough bool) []string {
 			}
 		case k < 74 || nsub == 0:
 			c.run([]string{"read", hx.I(pickT(r, c))})
+		case nsub >= 2 && r.Chance(1, 3):
+			a := 1 + r.Intn(nsub)
+			b := 1 + (a+r.Intn(nsub-1))%nsub
+			c.run([]string{"rnest", fmt.Sprintf("r%d", a), fmt.Sprintf("r%d", b), hx.I(int64(r.Intn(3)))})
 		default:
-			c.run([]string{"rstep", fmt.Sprintf("r%d", 1+r.Intn(nsub))})
+			c.run([]string{"rstep", fmt.Sprintf("r%d", 1+r.Intn(nsub)), hx.I(int64(r.Intn(3)))})
 		}
 		if style <= 1 && c.started < c.seals && r.Chance(9, 10) {
 			c.run([]string{"fwrite"})
